@@ -106,7 +106,7 @@ func outcome(res *ElkResult) (string, bool) {
 
 func init() {
 	register(&Check{
-		ID: "C14",
+		ID:   "C14",
 		Rule: "seeded generator of well-typed terminating programs over loop/while/for with labelled and unlabelled break/continue, return, throw, do/catch (literal and typed patterns)/finally, defer, if/else, && || ?? with side-effecting operands (markers print on evaluation), functions; every statement prints a unique marker; the printed trace is compared with a reference interpreter; failing programs are delta-minimised and named by the shape of the minimal program; distinct = program shapes",
 		NumCases: func(tier string) int {
 			if tier == "thorough" {
@@ -121,7 +121,7 @@ func init() {
 		Assumptions: []string{"reference semantics: finally runs exactly once on every exit path (normal, return, break, continue, throw, also out of a catch body); deferred statements run at function exit in reverse registration order, after finally blocks; loop-body locals and for variables are fresh per iteration"},
 	})
 	register(&Check{
-		ID: "C13",
+		ID:   "C13",
 		Rule: "seeded generator of programs building nested closures (depth <= 3) that capture locals, parameters, loop variables and other closures, read and write them, are called before and after the defining frame/iteration ends, inside functions and loops; the printed trace is compared with a reference interpreter with one shared cell per captured variable per activation; failing programs are delta-minimised; distinct = program shapes",
 		NumCases: func(tier string) int {
 			if tier == "thorough" {
